@@ -274,7 +274,10 @@ def run(P: Program, R: Report, tier: str) -> None:
                             if callee is None or callee is fn:
                                 continue
                             for pn, a in list(zip(callee.params, c.args, strict=False)) + [(k.arg, k.value) for k in c.keywords if k.arg]:
-                                if isinstance(a, ast.Name) and a.id == closed:
+                                # `closed`, or `closed if <selection given> else None`
+                                cands = [a.body, a.orelse] if isinstance(a, ast.IfExp) else [a]
+                                cands = [x for x in cands if not (isinstance(x, ast.Constant) and x.value is None)]
+                                if len(cands) == 1 and isinstance(cands[0], ast.Name) and cands[0].id == closed:
                                     out += mask_sites(callee, pn, depth + 1)
                 return out
 
@@ -283,12 +286,26 @@ def run(P: Program, R: Report, tier: str) -> None:
                 R.undecided("R15.2", f, f.node, "the exported segmentation is filtered chunk-wise through a membership mask", "no filtered write found")
             for fn, st, val, closed in sites:
                 mask_ok = False
+                aliases = {closed}
+                for x in ast.walk(fn.node):
+                    if isinstance(x, ast.Assign) and isinstance(x.targets[0], ast.Name) and isinstance(x.value, ast.Call) and call_name(x.value) in ("asarray", "array", "list", "fromiter", "sorted", "set", "tuple"):
+                        inner_ = x.value.args[0] if x.value.args else None
+                        while isinstance(inner_, ast.Call) and call_name(inner_) in ("list", "tuple", "sorted", "set") and inner_.args:
+                            inner_ = inner_.args[0]
+                        if isinstance(inner_, ast.Name) and inner_.id in aliases:
+                            aliases.add(x.targets[0].id)
                 if isinstance(val, ast.Call) and call_name(val) == "where" and len(val.args) == 3 and norm(val.args[2]) == "0":
                     m = val.args[0]
                     if isinstance(m, ast.Name):
                         d = [x for x in ast.walk(fn.node) if isinstance(x, ast.Assign) and isinstance(x.targets[0], ast.Name) and x.targets[0].id == m.id]
                         m = d[0].value if len(d) == 1 else m
-                    mask_ok = isinstance(m, ast.Call) and call_name(m) == "isin" and norm(m.args[1]) == closed and norm(m.args[0]) == norm(val.args[1])
+                    mask_ok = isinstance(m, ast.Call) and call_name(m) == "isin" and norm(m.args[1]) in aliases and norm(m.args[0]) == norm(val.args[1])
+                    flags = [k for k in m.keywords if k.arg in ("assume_unique", "invert") and not (isinstance(k.value, ast.Constant) and k.value.value is False)] if mask_ok else []
+                    if flags:
+                        R.fail("R15.2", fn, st, "the membership mask is computed for an array with repeated labels",
+                               f"`{norm(m)[:80]}`: `{flags[0].arg}` changes the answer for a pixel block - assume_unique promises that BOTH arrays have no repeated "
+                               "values, a block of pixels is full of them, and numpy's sort-based path then marks runs of unselected labels as contained")
+                        continue
                 R.check(mask_ok, "R15.2", fn, st, "a pixel keeps its label iff the label is in the closed set (np.where(np.isin(block, closed), block, 0))",
                         f"filtered block is `{norm(val)[:110]}`: labels outside the closed set can survive or be renamed", via="guard-shape")
                 # the view of the live array is not written in place
@@ -356,6 +373,11 @@ def run(P: Program, R: Report, tier: str) -> None:
     removes = [x for x in ast.walk(c.node) if isinstance(x, ast.Call) and call_name(x) in ("remove", "discard", "difference_update", "pop", "clear", "difference", "intersection", "intersection_update")]
     R.check(not removes, "R15.3", c, removes[0] if removes else c.node, "nothing is removed from the closed set", "", via="syntax")
     exporters_keep_no_memo(P, R, "R15.5")
+    # ---- R15.6 (= R14.7) "no parent" is decided by `is None` / emptiness, never by truthiness of the parent id: node 0 is a
+    # legal parent, and `parent or ""` writes its children as roots - an exported node with a missing parent link
+    from .c05 import id_truthiness
+
+    id_truthiness(P, R, "R15.6", modules=("import_export",))
 
 
 def exporters_keep_no_memo(P: Program, R: Report, rule: str) -> None:
